@@ -51,13 +51,14 @@ type World struct {
 	S    *simcore.Sim
 	P    *Profile
 
-	db      *statedb.DB
-	ghost   statedb.RWTable[*Obj] // a table object that is not registered with db
-	bulk    bool                  // this run builds a backlog of thousands of deleted objects
-	bulkOps int
-	metrics *simMetrics
-	tables  []*TableCtx
-	nReg    int // tables whose registration has returned
+	db         *statedb.DB
+	ghost      statedb.RWTable[*Obj] // a table object that is not registered with db
+	bulk       bool                  // this run builds a backlog of thousands of deleted objects
+	bulkOps    int
+	abortedTxn map[int]bool // ids of write transactions that were aborted (objects carry their writer's id)
+	metrics    *simMetrics
+	tables     []*TableCtx
+	nReg       int // tables whose registration has returned
 
 	inflight map[int]*MCommit
 	nextTxn  int
@@ -143,7 +144,7 @@ var leakedIters []statedb.ChangeIterator[*Obj]
 func Run(t *testing.T, prop, tier string, c *simcore.Choices, full bool) *simcore.RunResult {
 	res := &simcore.RunResult{}
 	w := &World{t: t, prop: prop, tier: tier, C: c,
-		inflight: map[int]*MCommit{}, lockTable: map[*simcore.SimLock]int{}, everDead: map[int]bool{}, probes: map[string]int{}, faults: map[string]int{}, states: map[uint64]struct{}{}}
+		inflight: map[int]*MCommit{}, lockTable: map[*simcore.SimLock]int{}, everDead: map[int]bool{}, probes: map[string]int{}, faults: map[string]int{}, states: map[uint64]struct{}{}, abortedTxn: map[int]bool{}}
 	w.P = profileFor(prop, tier)
 	leaked, perr := simcore.InBubble(t, func() {
 		w.run(full)
